@@ -480,15 +480,24 @@ def neighbours_and_defaults(ctx):
         shutil.rmtree(d, ignore_errors=True)
 
 
+def guarded(ctx, fn, k):
+    """a history of legitimate steps: an exception of the library in one of them (the loader refusing the aggregator's own file, …) is a report"""
+    try:
+        fn(ctx, k)
+    except Exception as e:
+        ctx.violation(f"C18 violated: a legitimate write / read history ({fn.__name__} #{k}) raised {type(e).__name__}: {str(e)[:140]}",
+                      {"history": fn.__name__, "k": k}, key={"kind": "loader-fails"})
+
+
 def run(ctx):
     neighbours_and_defaults(ctx)
     for k in range(2):
         recreated_file_history(ctx, k)
     locale_loader(ctx, "locale")
     for k in range(ctx.scale(4, 20)):
-        statistic_after_other_writer(ctx, k)
+        guarded(ctx, statistic_after_other_writer, k)
     for k in range(ctx.scale(4, 30)):
-        permuted_continuation(ctx, k)
+        guarded(ctx, permuted_continuation, k)
     for i in range(ctx.scale(200, 2500)):
         rand_case(ctx, "rand", i)
 
@@ -499,6 +508,10 @@ def search(ctx):
 
 
 def replay(ctx, rec):
+    if rec["input"].get("history") in ("statistic_after_other_writer", "permuted_continuation"):
+        neighbours_and_defaults(ctx)
+        guarded(ctx, globals()[rec["input"]["history"]], rec["input"]["k"])
+        return
     if rec["input"].get("neighbours_and_defaults"):
         neighbours_and_defaults(ctx)
         return
